@@ -39,70 +39,77 @@ Qed.
 Section Serial.
 Variables (k : nat) (p om : Z).
 Hypothesis Hk : (2 <= k <= 30)%nat.
-Let W := flat p k om.
+Variables padW padW' : list Z.
+Hypothesis HpadW : Forall (fun v => 0 <= v < p) padW.
+Let W := flat p k om ++ padW.
+Definition Wp (w : Z) : list Z := map (fun v => (v * 2 ^ w) / p) (flat p k om) ++ padW'.
 Let tws (lvl : nat) : list Z := nth lvl (prep p k om) [].
-Lemma Wlen (w : Z) : (2 ^ k - 1 <= length W)%nat /\ (2 ^ k - 1 <= length (map (fun v => ((v * 2 ^ w) / p)%Z) W))%nat.
-Proof. rewrite map_length. unfold W. pose proof (flat_length p k om). lia. Qed.
+Lemma Wlen (w : Z) : (2 ^ k - 1 <= length W)%nat /\ (2 ^ k - 1 <= length (Wp w))%nat.
+Proof. unfold W, Wp. rewrite !app_length, map_length. pose proof (flat_length p k om). lia. Qed.
+Lemma WF : 1 < p -> Forall (fun v => 0 <= v < p) W.
+Proof. intros Hp. apply Forall_app. split; [apply flat_range; exact Hp | exact HpadW]. Qed.
+Lemma WpF w : 0 < w -> 1 < p -> Forall (fun v => 0 <= v < 2 ^ w) padW' -> Forall (fun v => 0 <= v < 2 ^ w) (Wp w).
+Proof. intros Hw Hp Hpad. apply Forall_app. split; [apply shoup_range; [exact Hw | lia | apply flat_range; exact Hp] | exact Hpad]. Qed.
 
-Theorem ntt_serial_u32_ok x0 : 1 < p -> 4 * p <= 2 ^ 32 -> length x0 = (2 ^ k)%nat -> Forall (fun v => 0 <= v < 2 ^ 32) x0 ->
-  gen_ntt_serial_u32 (Z.of_nat (2 ^ k)) x0 0 W 0 (map (fun v => (v * 2 ^ 32) / p) W) 0 p =
+Theorem ntt_serial_u32_ok x0 : 1 < p -> 4 * p <= 2 ^ 32 -> Forall (fun v => 0 <= v < 2 ^ 32) padW' -> length x0 = (2 ^ k)%nat -> Forall (fun v => 0 <= v < 2 ^ 32) x0 ->
+  gen_ntt_serial_u32 (Z.of_nat (2 ^ k)) x0 0 W 0 (Wp 32) 0 p =
   Some ((ntt_core 32 p k tws x0, Z.of_nat (2 ^ k), Z.of_nat (off k (k - 2)), Z.of_nat (off k (k - 2))), true).
 Proof.
-  intros Hp H4 Hx Fx. rewrite ntt_serial_u32_shape, run_serial_u32_shape. destruct (Wlen 32) as [L1 L2].
+  intros Hp H4 Hpad' Hx Fx. rewrite ntt_serial_u32_shape, run_serial_u32_shape. destruct (Wlen 32) as [L1 L2].
   assert (K1 : forall a b wi wt, 0 <= a < 2 ^ 32 -> 0 <= b < 2 ^ 32 -> 0 <= wi < 2 ^ 32 -> 0 <= wt < p -> gen_bfly_u32 p a b wi wt = Some (bf4 32 p a b wi wt))
     by (intros a b wi wt Ha Hb Hwi Hwt; apply gen_bfly32; lia).
   assert (K2 : forall u0 u1 u2 u3 w1' w1, 0 <= u0 < 2 ^ 32 -> 0 <= u1 < 2 ^ 32 -> 0 <= u2 < 2 ^ 32 -> 0 <= u3 < 2 ^ 32 -> 0 <= w1' < 2 ^ 32 -> 0 <= w1 < p ->
     gen_fused_u32 p u0 u1 u2 u3 w1' w1 = Some (fused 32 p w1 w1' u0 u1 u2 u3)) by (intros u0 u1 u2 u3 w1' w1 H0 H1 H2 H3 Hw1' Hw1; apply gen_fused32; lia).
   assert (K3 : forall v, 0 <= v < 2 ^ 32 -> gen_loop_u32_region1 p v = Some (LoopInst.strict1 p v)) by (intros v Hv; apply strict_region32; lia).
-  rewrite (ntt_serial_inst 32 ltac:(lia) p k ltac:(lia) W _ (flat_range p k Hp om) (shoup_range 32 p W ltac:(lia) ltac:(lia) (flat_range p k Hp om)) L1 L2
+  rewrite (ntt_serial_inst 32 ltac:(lia) p k ltac:(lia) W _ (WF Hp) (WpF 32 ltac:(lia) Hp Hpad') L1 L2
              gen_bfly_u32 K1 gen_deg2_u32 gen_fused_u32 K2 gen_loop_u32_region1 K3 x0 ltac:(lia) Hx Fx).
-  unfold W, tws. rewrite (result_is_ntt_core 32 p k om x0) by lia. reflexivity.
+  unfold W, tws. unfold Wp. rewrite (result_is_ntt_core 32 p k om padW padW' x0) by lia. reflexivity.
 Qed.
-Theorem ntt_serial_u64_ok x0 : 1 < p -> 4 * p <= 2 ^ 64 -> length x0 = (2 ^ k)%nat -> Forall (fun v => 0 <= v < 2 ^ 64) x0 ->
-  gen_ntt_serial_u64 (Z.of_nat (2 ^ k)) x0 0 W 0 (map (fun v => (v * 2 ^ 64) / p) W) 0 p =
+Theorem ntt_serial_u64_ok x0 : 1 < p -> 4 * p <= 2 ^ 64 -> Forall (fun v => 0 <= v < 2 ^ 64) padW' -> length x0 = (2 ^ k)%nat -> Forall (fun v => 0 <= v < 2 ^ 64) x0 ->
+  gen_ntt_serial_u64 (Z.of_nat (2 ^ k)) x0 0 W 0 (Wp 64) 0 p =
   Some ((ntt_core 64 p k tws x0, Z.of_nat (2 ^ k), Z.of_nat (off k (k - 2)), Z.of_nat (off k (k - 2))), true).
 Proof.
-  intros Hp H4 Hx Fx. rewrite ntt_serial_u64_shape, run_serial_u64_shape. destruct (Wlen 64) as [L1 L2].
+  intros Hp H4 Hpad' Hx Fx. rewrite ntt_serial_u64_shape, run_serial_u64_shape. destruct (Wlen 64) as [L1 L2].
   assert (K1 : forall a b wi wt, 0 <= a < 2 ^ 64 -> 0 <= b < 2 ^ 64 -> 0 <= wi < 2 ^ 64 -> 0 <= wt < p -> gen_bfly_u64 p a b wi wt = Some (bf4 64 p a b wi wt))
     by (intros a b wi wt Ha Hb Hwi Hwt; apply gen_bfly64; lia).
   assert (K2 : forall u0 u1 u2 u3 w1' w1, 0 <= u0 < 2 ^ 64 -> 0 <= u1 < 2 ^ 64 -> 0 <= u2 < 2 ^ 64 -> 0 <= u3 < 2 ^ 64 -> 0 <= w1' < 2 ^ 64 -> 0 <= w1 < p ->
     gen_fused_u64 p u0 u1 u2 u3 w1' w1 = Some (fused 64 p w1 w1' u0 u1 u2 u3)) by (intros u0 u1 u2 u3 w1' w1 H0 H1 H2 H3 Hw1' Hw1; apply gen_fused64; lia).
   assert (K3 : forall v, 0 <= v < 2 ^ 64 -> gen_loop_u64_region1 p v = Some (LoopInst.strict1 p v)) by (intros v Hv; apply strict_region64; lia).
-  rewrite (ntt_serial_inst 64 ltac:(lia) p k ltac:(lia) W _ (flat_range p k Hp om) (shoup_range 64 p W ltac:(lia) ltac:(lia) (flat_range p k Hp om)) L1 L2
+  rewrite (ntt_serial_inst 64 ltac:(lia) p k ltac:(lia) W _ (WF Hp) (WpF 64 ltac:(lia) Hp Hpad') L1 L2
              gen_bfly_u64 K1 gen_deg2_u64 gen_fused_u64 K2 gen_loop_u64_region1 K3 x0 ltac:(lia) Hx Fx).
-  unfold W, tws. rewrite (result_is_ntt_core 64 p k om x0) by lia. reflexivity.
+  unfold W, tws. unfold Wp. rewrite (result_is_ntt_core 64 p k om padW padW' x0) by lia. reflexivity.
 Qed.
-Theorem ntt_serial_u16_ok x0 : 1 < p -> p < 2 ^ 14 -> length x0 = (2 ^ k)%nat -> Forall (fun v => 0 <= v < 2 ^ 16) x0 ->
-  gen_ntt_serial_u16 (Z.of_nat (2 ^ k)) x0 0 W 0 (map (fun v => (v * 2 ^ 16) / p) W) 0 p =
+Theorem ntt_serial_u16_ok x0 : 1 < p -> p < 2 ^ 14 -> Forall (fun v => 0 <= v < 2 ^ 16) padW' -> length x0 = (2 ^ k)%nat -> Forall (fun v => 0 <= v < 2 ^ 16) x0 ->
+  gen_ntt_serial_u16 (Z.of_nat (2 ^ k)) x0 0 W 0 (Wp 16) 0 p =
   Some ((ntt_core 16 p k tws x0, Z.of_nat (2 ^ k), Z.of_nat (off k (k - 2)), Z.of_nat (off k (k - 2))), true).
 Proof.
-  intros Hp P14 Hx Fx. rewrite ntt_serial_u16_shape, run_serial_u16_shape. destruct (Wlen 16) as [L1 L2].
+  intros Hp P14 Hpad' Hx Fx. rewrite ntt_serial_u16_shape, run_serial_u16_shape. destruct (Wlen 16) as [L1 L2].
   assert (H4 : 4 * p <= 2 ^ 16) by (change (2 ^ 16) with 65536; change (2 ^ 14) with 16384 in P14; lia).
   assert (K1 : forall a b wi wt, 0 <= a < 2 ^ 16 -> 0 <= b < 2 ^ 16 -> 0 <= wi < 2 ^ 16 -> 0 <= wt < p -> gen_bfly_u16 p a b wi wt = Some (bf4 16 p a b wi wt))
     by (intros a b wi wt Ha Hb Hwi Hwt; apply gen_bfly16; lia).
   assert (K2 : forall u0 u1 u2 u3 w1' w1, 0 <= u0 < 2 ^ 16 -> 0 <= u1 < 2 ^ 16 -> 0 <= u2 < 2 ^ 16 -> 0 <= u3 < 2 ^ 16 -> 0 <= w1' < 2 ^ 16 -> 0 <= w1 < p ->
     gen_fused_u16 p u0 u1 u2 u3 w1' w1 = Some (fused 16 p w1 w1' u0 u1 u2 u3)) by (intros u0 u1 u2 u3 w1' w1 H0 H1 H2 H3 Hw1' Hw1; apply gen_fused16; lia).
   assert (K3 : forall v, 0 <= v < 2 ^ 16 -> gen_loop_u16_region1 p v = Some (LoopInst.strict1 p v)) by (intros v Hv; apply strict_region16; lia).
-  rewrite (ntt_serial_inst 16 ltac:(lia) p k ltac:(lia) W _ (flat_range p k Hp om) (shoup_range 16 p W ltac:(lia) ltac:(lia) (flat_range p k Hp om)) L1 L2
+  rewrite (ntt_serial_inst 16 ltac:(lia) p k ltac:(lia) W _ (WF Hp) (WpF 16 ltac:(lia) Hp Hpad') L1 L2
              gen_bfly_u16 K1 gen_deg2_u16 gen_fused_u16 K2 gen_loop_u16_region1 K3 x0 ltac:(lia) Hx Fx).
-  unfold W, tws. rewrite (result_is_ntt_core 16 p k om x0) by lia. reflexivity.
+  unfold W, tws. unfold Wp. rewrite (result_is_ntt_core 16 p k om padW padW' x0) by lia. reflexivity.
 Qed.
 End Serial.
 
-Lemma source_loops_serial k p om x0 : (2 <= k <= 30)%nat -> 1 < p -> length x0 = (2 ^ k)%nat ->
-  let W := flat p k om in let tws := fun lvl => nth lvl (prep p k om) nil in
-  (p < 2 ^ 14 -> Forall (fun v => 0 <= v < 2 ^ 16) x0 ->
-     gen_ntt_serial_u16 (Z.of_nat (2 ^ k)) x0 0 W 0 (map (fun v => (v * 2 ^ 16) / p) W) 0 p =
+Lemma source_loops_serial k p om padW padW' x0 : (2 <= k <= 30)%nat -> 1 < p -> Forall (fun v => 0 <= v < p) padW -> length x0 = (2 ^ k)%nat ->
+  let W := flat p k om ++ padW in let W' := fun w => map (fun v => (v * 2 ^ w) / p) (flat p k om) ++ padW' in let tws := fun lvl => nth lvl (prep p k om) nil in
+  (p < 2 ^ 14 -> Forall (fun v => 0 <= v < 2 ^ 16) padW' -> Forall (fun v => 0 <= v < 2 ^ 16) x0 ->
+     gen_ntt_serial_u16 (Z.of_nat (2 ^ k)) x0 0 W 0 (W' 16) 0 p =
      Some ((ntt_core 16 p k tws x0, Z.of_nat (2 ^ k), Z.of_nat (off k (k - 2)), Z.of_nat (off k (k - 2))), true)) /\
-  (4 * p <= 2 ^ 32 -> Forall (fun v => 0 <= v < 2 ^ 32) x0 ->
-     gen_ntt_serial_u32 (Z.of_nat (2 ^ k)) x0 0 W 0 (map (fun v => (v * 2 ^ 32) / p) W) 0 p =
+  (4 * p <= 2 ^ 32 -> Forall (fun v => 0 <= v < 2 ^ 32) padW' -> Forall (fun v => 0 <= v < 2 ^ 32) x0 ->
+     gen_ntt_serial_u32 (Z.of_nat (2 ^ k)) x0 0 W 0 (W' 32) 0 p =
      Some ((ntt_core 32 p k tws x0, Z.of_nat (2 ^ k), Z.of_nat (off k (k - 2)), Z.of_nat (off k (k - 2))), true)) /\
-  (4 * p <= 2 ^ 64 -> Forall (fun v => 0 <= v < 2 ^ 64) x0 ->
-     gen_ntt_serial_u64 (Z.of_nat (2 ^ k)) x0 0 W 0 (map (fun v => (v * 2 ^ 64) / p) W) 0 p =
+  (4 * p <= 2 ^ 64 -> Forall (fun v => 0 <= v < 2 ^ 64) padW' -> Forall (fun v => 0 <= v < 2 ^ 64) x0 ->
+     gen_ntt_serial_u64 (Z.of_nat (2 ^ k)) x0 0 W 0 (W' 64) 0 p =
      Some ((ntt_core 64 p k tws x0, Z.of_nat (2 ^ k), Z.of_nat (off k (k - 2)), Z.of_nat (off k (k - 2))), true)).
 Proof.
-  intros Hk Hp Hx W tws. repeat split; intros H1 Fx.
-  - apply ntt_serial_u16_ok; assumption.
-  - apply ntt_serial_u32_ok; assumption.
-  - apply ntt_serial_u64_ok; assumption.
+  intros Hk Hp HpadW Hx W W' tws. split; [|split]; intros H1 Hpad' Fx.
+  - apply (ntt_serial_u16_ok k p om Hk padW padW' HpadW); assumption.
+  - apply (ntt_serial_u32_ok k p om Hk padW padW' HpadW); assumption.
+  - apply (ntt_serial_u64_ok k p om Hk padW padW' HpadW); assumption.
 Qed.
